@@ -50,6 +50,13 @@ def concrete_event(e, style):
         tstr = '%04d-%02d-%02dT%02d:%02d:%02d.%03d' % (d.year, d.month, d.day, h, mi, s, ms)
     else:
         tstr = '%04d-%02d-%02dT%02d:%02d:%02d.%06d' % (d.year, d.month, d.day, h, mi, s, ms * 1000)
+    if e in (5, 11):
+        # an event all of whose numbers are zero (the epoch instant, on the equator at the prime meridian, at the surface,
+        # magnitude 0): a row of zeros is an event, only a row of blanks is a placeholder
+        lon = lat = mag = depth = 0.0
+        d, h, mi, s, ms = datetime.date(1970, 1, 1), 0, 0, 0, 0
+        tstr = '1970-01-01T00:00:00' if style in ('nofrac', 'mixed') else ('1970-01-01T00:00:00.0' if style == 'frac12' else (
+            '1970-01-01T00:00:00.000' if style == 'ms3' else '1970-01-01T00:00:00.000000'))
     epoch_ms = calendar.timegm((d.year, d.month, d.day, h, mi, s)) * 1000 + ms
     eid = 'ev%d' % e if style != 'mixed' or e % 5 else 'ci%d-%d' % (e, e * 3)
     if style == 'mixed' and e % 4 == 1:
